@@ -109,10 +109,9 @@ impl From<SelectorParseError<'_>> for SelectorError {
                     Self::UnexpectedTokenInAttribute
                 }
                 SelectorParseErrorKind::ClassNeedsIdent(_) => Self::InvalidClassName,
-                SelectorParseErrorKind::InvalidState => {
-                    debug_assert!(false, "invalid state");
-                    Self::UnsupportedSyntax
-                }
+                // NOTE: reachable from user input: a pseudo-element inside `:not()`,
+                // e.g. `a:not(::before)`.
+                SelectorParseErrorKind::InvalidState => Self::UnsupportedSyntax,
             },
         }
     }
